@@ -78,6 +78,8 @@ def Dialect.OpBudgetDich (d : Dialect) : Prop :=
 theorem Dialect.OpBudget.up {d : Dialect} (h : d.OpBudget) : d.OpBudgetUp :=
   fun o args ext c m m' r hr h1 h2 => h.tight o args ext c m m' r hr (Nat.le_trans h1 h2)
 
+theorem Dialect.OpBudget.toDich {d : Dialect} (h : d.OpBudget) : d.OpBudgetDich := h.dich
+
 /-! ### generalities about the loop -/
 
 /-- the cost only grows -/
@@ -605,22 +607,36 @@ theorem runLoop_down {cfg : Cfg} {d : Dialect} (hd : d.OpBudgetDich) {mc1 mc2 : 
 /-- **C02 (c), dichotomy.**  A program that succeeds under budget `M` gives, under any other budget
 `M'` (same fuel), the identical success or `CostExceeded` — never another error, never another
 result. -/
-theorem run_dichotomy {cfg : Cfg} {d : Dialect} (hd : d.OpBudget) {fuel : Nat} {c0 : Ctr} {p e : Val}
+theorem run_dichotomy {cfg : Cfg} {d : Dialect} (hu : d.OpBudgetUp) (hdi : d.OpBudgetDich) {fuel : Nat}
+    {c0 : Ctr} {p e : Val}
     {M : Nat} {r : Nat × Val × Ctr} (h : runProgram cfg d fuel c0 p e M = some (.ok r)) (M' : Nat) :
     runProgram cfg d fuel c0 p e M' = some (.ok r) ∨
     runProgram cfg d fuel c0 p e M' = some (.error .CostExceeded) := by
   by_cases hM : effBudget M ≤ effBudget M'
-  · exact Or.inl (run_upward hd.up h hM)
+  · exact Or.inl (run_upward hu h hM)
   · obtain ⟨C, v, c⟩ := r
     obtain ⟨c1, cost0, s0, sF, vs, h1, h2, h3, h4, h5⟩ := runProgram_ok_iff.1 h
     have hsf0 := initial_sf h2
     have hs0 : s0.setSf [] = s0 := by rw [← hsf0]; rfl
-    rcases runLoop_down hd.dich (Nat.le_of_lt (Nat.lt_of_not_le hM)) fuel s0 [] cost0 C sF
+    rcases runLoop_down hdi (Nat.le_of_lt (Nat.lt_of_not_le hM)) fuel s0 [] cost0 C sF
       (by rw [hsf0]; exact GuardsRel.nil) h3 with ⟨sfF, h3'⟩ | hce
     · rw [hs0] at h3'
       exact Or.inl (runProgram_ok_iff.2 ⟨c1, cost0, s0, sF.setSf sfF, vs, h1, h2, h3', h4, h5⟩)
     · rw [hs0] at hce
       exact Or.inr (runProgram_of_loop h1 h2 hce)
+
+/-- **C02, with cost-exempt guards** (`…_exempt` of the plan): whatever the dialect, the set of
+budgets under which a program succeeds is upward closed (`run_upward`), all of them give the same
+cost, value and counters, and each of them is at least the reported cost. -/
+theorem run_success_unique {cfg : Cfg} {d : Dialect} (hu : d.OpBudgetUp) (hdi : d.OpBudgetDich) {fuel : Nat}
+    {c0 : Ctr} {p e : Val} {M M' : Nat} {r r' : Nat × Val × Ctr}
+    (h : runProgram cfg d fuel c0 p e M = some (.ok r)) (h' : runProgram cfg d fuel c0 p e M' = some (.ok r')) :
+    r' = r ∧ r.1 ≤ effBudget M' := by
+  rcases run_dichotomy hu hdi h M' with hok | hce
+  · rw [hok] at h'
+    cases h'
+    exact ⟨rfl, run_sound hok⟩
+  · rw [hce] at h'; cases h'
 
 /-! ### (d) tightness, for dialects without cost-exempt guards -/
 
@@ -966,7 +982,7 @@ theorem run_tight {cfg : Cfg} {d : Dialect} (hd : d.OpBudget) (hne : d.NoExempt)
       (by rw [hsf0]; intro g hg; cases hg) h3 hC
     exact runProgram_ok_iff.2 ⟨c1, cost0, s0, sF, vs, h1, h2, h3', h4, h5⟩
   · intro hlt
-    rcases run_dichotomy hd h M' with hok | hce
+    rcases run_dichotomy hd.up hd.dich h M' with hok | hce
     · have := run_sound hok
       omega
     · exact hce
